@@ -395,6 +395,41 @@ Proof.
   intros s o Hs. apply (step_inv s o Hs).
 Qed.
 
+Notation final' := (final_sys pf uni_word re_match heur_bt re_compiles CS c_get c_add c_reset builtins).
+
+Lemma final_inv ops : forall s, SysInv s -> SysInv (final' s ops).
+Proof.
+  induction ops as [|o ops IH]; intros s Hs; [exact Hs|].
+  unfold final_sys. cbn [fold_left]. apply IH. apply (step_inv s o Hs).
+Qed.
+
+Theorem across_reload_gen f cache t0 opsA opsB ops l evs t e :
+  cache_ok cache ->
+  line_to_events pf f l = Ok (evs, t) -> In e evs ->
+  let sA := final' (init_sys CS f cache t0) opsA in
+  let sB := final' (init_sys CS f cache t0) opsB in
+  let s := final' (init_sys CS f cache t0) ops in
+  let rm := get_mapping uni_word re_match CS c_get c_add (s_mapper CS sA) (e_name e) (type_string (e_kind e)) in
+  let mapped := match fst rm with Some mr => lookup_rule CS (snd rm) mr | None => None end in
+  handle_event (m_defaults CS (s_mapper CS sB)) (s_now CS s) (s_exp CS s) e mapped <> HPanic.
+Proof.
+  intros Hc El Hin sA sB s rm mapped.
+  destruct (final_inv opsA _ (init_inv f cache t0 Hc)) as [_ HMA].
+  destruct (final_inv opsB _ (init_inv f cache t0 Hc)) as [_ (DB & _ & _)].
+  destruct (final_inv ops _ (init_inv f cache t0 Hc)) as [HI _].
+  fold sA in HMA. fold sB in DB. fold s in HI.
+  pose proof (l2e_events_ok _ _ _ _ _ El) as Hev. rewrite Forall_forall in Hev. specialize (Hev e Hin).
+  destruct rm as [r mA'] eqn:Eg. subst rm.
+  destruct (get_mapping_inv _ _ _ _ _ HMA Eg) as [(M1 & M2 & M3) Hr].
+  cbn [fst snd] in mapped.
+  pose proof (handle_event_inv (m_defaults CS (s_mapper CS sB)) (s_now CS s) (s_exp CS s) e mapped HI DB Hev) as H.
+  match type of H with ?A -> _ => assert (HA : A) end.
+  { intros ru nm ls E. subst mapped. destruct r as [mr|]; [|discriminate].
+    unfold lookup_rule in E. destruct (nth_error (m_rules CS mA') (mr_rule mr)) as [ru'|] eqn:En; [|discriminate].
+    inversion E; subst. split; [apply M2; eapply nth_error_In; exact En | exact Hr]. }
+  specialize (H HA). intros Ep. rewrite Ep in H. exact H.
+Qed.
+
 Definition scrape_fine (g : bool * list sample) : Prop :=
   (forall s b, In s (snd g) -> In b builtins -> name_independent (sm_name s) b = true) -> fst g = true.
 
@@ -431,6 +466,19 @@ Proof.
   unfold run_sys, init.
   apply (no_panic_gen pf uni_word re_match heur_bt re_compiles CS c_get c_add c_reset builtins
                       (fun _ => True) (fun _ _ => I) (fun _ => True)).
+  - intros s k r s' _ _. split; [exact I|]. intros [mr|] _; cbn; auto.
+  - auto.
+  - auto.
+  - destruct cache; exact I.
+Qed.
+
+Lemma event_across_reload_no_panic_ok : forall pf uni_word re_match heur_bt re_compiles CS c_get c_add c_reset builtins,
+    stmt_event_across_reload_no_panic pf uni_word re_match heur_bt re_compiles CS c_get c_add c_reset builtins.
+Proof.
+  intros pf uni_word re_match heur_bt re_compiles CS c_get c_add c_reset builtins f cache t0 opsA opsB ops l evs t e.
+  unfold init.
+  apply (across_reload_gen pf uni_word re_match heur_bt re_compiles CS c_get c_add c_reset builtins
+                           (fun _ => True) (fun _ _ => I) (fun _ => True)).
   - intros s k r s' _ _. split; [exact I|]. intros [mr|] _; cbn; auto.
   - auto.
   - auto.
